@@ -45,6 +45,8 @@ def handle : Handler := fun j => do
     let p := Alto.printSpace H W boxes
     return ok (Json.mkObj [("blocks", jList jBox boxes), ("ps", jInts [p.height, p.width, p.vpos, p.hpos]),
       ("margins", jList jBox (Alto.margins H W p))])
+  | "reimport" =>
+    return ok (jNats (Alto.reimportLine (← getNatMat j "words")))
   | _ => throw s!"C06: unknown op {op}"
 
 end Drv.C06
